@@ -21,8 +21,9 @@ def DState.get? (st : DState) (id : String) : Option Inst := (st.insts.find? (·
 def DState.set (st : DState) (id : String) (i : Inst) : DState :=
   { st with insts := (id, i) :: st.insts.filter (·.1 != id) }
 
-def renderObs (i : Inst) : String :=
-  " ".intercalate (i.ex.obs.map Tok.render) ++ " tie=" ++ bit i.tie
+def agreeDiscrete (i : Inst) : Bool :=
+  let a := i.ex.obs.map Tok.discrete
+  a == i.lo.obs.map Tok.discrete && a == i.hi.obs.map Tok.discrete
 
 /-- The three carriers run the same model text and differ ONLY in how comparisons within the tie margin are decided, so any difference
     between their observations - a discrete one, or a float that a near-tied comparison selected (which of two tied minimisers is kept) -
@@ -30,6 +31,13 @@ def renderObs (i : Inst) : String :=
 def agree (i : Inst) : Bool :=
   let a := i.ex.obs.map Tok.render
   a == i.lo.obs.map Tok.render && a == i.hi.obs.map Tok.render
+
+/-- `tie=1` is printed while the carriers disagree.  A DISCRETE disagreement (a flag, a counter, a width) is sticky (`Inst.tie`): the three runs are on different
+    paths from then on.  A disagreement in floats only (which of two tied candidates was kept) lasts as long as the floats differ: when a later strict comparison
+    makes the three carriers select the same value again, their observations coincide bit for bit and the trace is compared again.  `reset` returns all three to
+    `init`, so it clears the sticky bit too. -/
+def renderObs (i : Inst) : String :=
+  " ".intercalate (i.ex.obs.map Tok.render) ++ " tie=" ++ bit (i.tie || !agree i)
 
 def parseTape (args : List String) : List Nat :=
   match arg? args "t" with
@@ -50,7 +58,7 @@ def handle (st : DState) (line : String) : DState × String :=
     | some i, some v =>
       let tape := parseTape args
       let i := { i with ex := i.ex.update v tape, lo := i.lo.update v tape, hi := i.hi.update v tape }
-      let i := { i with tie := i.tie || !agree i }
+      let i := { i with tie := i.tie || !agreeDiscrete i }
       (st.set id i, ".")
     | _, _ => (st, "bad-op")
   | "u" :: id :: hex :: args =>
@@ -58,13 +66,13 @@ def handle (st : DState) (line : String) : DState × String :=
     | some i, some v =>
       let tape := parseTape args
       let i := { i with ex := i.ex.update v tape, lo := i.lo.update v tape, hi := i.hi.update v tape }
-      let i := { i with tie := i.tie || !agree i }
+      let i := { i with tie := i.tie || !agreeDiscrete i }
       (st.set id i, renderObs i)
     | _, _ => (st, "bad-op")
   | ["r", id] =>
     match st.get? id with
     | some i =>
-      let i := { i with ex := i.ex.reset, lo := i.lo.reset, hi := i.hi.reset }
+      let i := { i with ex := i.ex.reset, lo := i.lo.reset, hi := i.hi.reset, tie := false }
       (st.set id i, renderObs i)
     | none => (st, "bad-op")
   | "ks" :: args => (st, cmdKS args)
